@@ -167,7 +167,7 @@ partial def event (sm : Sim) (ev : String) (nested : Bool := false) : Sim :=
       let reqs := (sm.w.st.appRequests.filter (·.1 == ai)).map (·.2)
       match reqs[idx.toNat?.getD 0]? with
       | none => (sm.op (.note (.raised ai "IndexError"))).flushOuts.settle
-      | some req => (sm.op (.ans ai req (rc.toNat?.getD 2001))).flushOuts.settle
+      | some req => (sm.op (.ans ai req (if rc == "-" then none else some (rc.toNat?.getD 2001)))).flushOuts.settle
     | "req" :: a :: d :: rest =>
       let ai := a.toNat?.getD 0
       let m0 := { parseMsg d with hbh := 0 }
